@@ -221,6 +221,18 @@ def r3_wakeup_scheduling(ctx, rule='C05.R3'):
             atoms = [a for _, a in path_atoms(f, path, decs)]
             atoms = atoms + filter_facts(f, atoms)
             guard = any(a[0] == 'cmp' and a[1] == 'lt' and a[2] == v and a[3][0] == 'field' and a[3][2] == 'next_wakeup' for a in atoms)
+            if not guard:
+                # the comparison may sit in the driver method that computes the deadline: it returns `next().filter(|t| *t < self.next_wakeup)`
+                for x in walk(v):
+                    if x[0] == 'call' and x[1] == D + 'Driver::next':
+                        gn = ctx.P.fns.get(D + 'Driver::next')
+                        for _, rt in (ret_trees(gn) if gn else []):
+                            rt = peel(rt)
+                            if rt[0] == 'call' and rt[1] == 'std::option::Option::filter' and len(rt[2]) == 2:
+                                body = gn._beta(rt[2][1], [('arg', 99, 'candidate')], 80)
+                                a2 = atom_of(body, ('eq', 1)) if body is not None else None
+                                if a2 and a2[0] == 'cmp' and a2[1] == 'lt' and a2[2] == ('arg', 'candidate') and a2[3][0] == 'field' and a2[3][2] == 'next_wakeup':
+                                    guard = True
             ok = ok and guard
             detail['guard'] = [show_atom(a) for a in atoms if a[0] == 'cmp']
         ctx.check(ok, 'wakeup-pairing',
